@@ -591,31 +591,40 @@ Definition input_cwnd (k : kcp) (una0 : Z) : kcp :=
     else set_cc k (ssthresh k) (rmt_wnd k) cw inc
   else k.
 
-(* Input(data, pktType, ackNoDelay): (state, return code, datagrams) *)
-Definition input (k : kcp) (data : bytes) (regular ack_nodelay : bool) (now : Z)
-  : res (kcp * Z * list bytes) :=
+(* Input up to (not including) the flush it may request *)
+Inductive flush_req := FNone | FAck | FFull.
+
+Definition input_pre (k : kcp) (data : bytes) (regular ack_nodelay : bool) (now : Z)
+  : res (kcp * Z * flush_req) :=
   let una0 := snd_una k in
-  if blen data <? c_IKCP_OVERHEAD then Ok (k, -1, [])
+  if blen data <? c_IKCP_OVERHEAD then Ok (k, -1, FNone)
   else
     match input_loop (S (length data / 24)) (mkInp k 0 false false) data regular with
     | Panic w => Panic w
-    | Ok (a, LErr code) => Ok (i_k a, code, [])
+    | Ok (a, LErr code) => Ok (i_k a, code, FNone)
     | Ok (a, LDone) =>
         let k := i_k a in
         let k := if i_rtt a && regular && (itimediff now (i_latest a) >=? 0)
                  then update_ack k (itimediff now (i_latest a)) else k in
         let k := input_cwnd k una0 in
-        if i_flush a then
-          match flush k FLUSH_FULL now with
-          | Ok (k', _, o) => Ok (k', 0, o) | Panic w => Panic w end
-        else if Z.of_nat (length (acklist k)) >=? mtu k / c_IKCP_OVERHEAD then
-          match flush k FLUSH_ACKONLY now with
-          | Ok (k', _, o) => Ok (k', 0, o) | Panic w => Panic w end
-        else if ack_nodelay && (Z.of_nat (length (acklist k)) >? 0) then
-          match flush k FLUSH_ACKONLY now with
-          | Ok (k', _, o) => Ok (k', 0, o) | Panic w => Panic w end
-        else Ok (k, 0, [])
+        if i_flush a then Ok (k, 0, FFull)
+        else if Z.of_nat (length (acklist k)) >=? mtu k / c_IKCP_OVERHEAD then Ok (k, 0, FAck)
+        else if ack_nodelay && (Z.of_nat (length (acklist k)) >? 0) then Ok (k, 0, FAck)
+        else Ok (k, 0, FNone)
     end.
+
+(* Input(data, pktType, ackNoDelay): (state, return code, datagrams) *)
+Definition input (k : kcp) (data : bytes) (regular ack_nodelay : bool) (now : Z)
+  : res (kcp * Z * list bytes) :=
+  match input_pre k data regular ack_nodelay now with
+  | Panic w => Panic w
+  | Ok (k, code, FNone) => Ok (k, code, [])
+  | Ok (k, code, fr) =>
+      match flush k (match fr with FFull => FLUSH_FULL | _ => FLUSH_ACKONLY end) now with
+      | Ok (k', _, o) => Ok (k', code, o)
+      | Panic w => Panic w
+      end
+  end.
 
 (* ---- Update / Check ---- *)
 Definition update (k : kcp) (now : Z) : res (kcp * list bytes) :=
